@@ -37,8 +37,15 @@ CLAIMS = {
     "C08": ("SGR decoding: for any list of 6 parameters with any sub-parameters, a leading well-formed operation (after 0-2 unknown codes) is decoded to exactly the statement's "
             "operation and consumes exactly its parameters (induction over the list); general lists of <= 2 parameters in full. The pen reaches printed and blanked cells "
             "(print / erase / scroll / alternate-screen harnesses assert cell.pen == pen).", NOTE + " Pen::dump round trip outside.", "5/C08"),
-    "C10": ("Kernels only: height-only Terminal::resize from an arbitrary state (no line altered, only rows below the cursor dropped, cursor stays on its line, InvT) and the "
-            "height re-synchronisation on return from the alternate screen. The width-changing composition (reflow) is undecided.",
+    "C09": ("Cell level only: from any Plain state (what printable text and CR LF drive a fresh primary screen into, with arbitrary lines above the cursor and "
+            "0-2 scrollback lines, unlimited scrollback) each plain-text step - print, print with a deferred wrap, CR LF - writes exactly one cell / marks exactly "
+            "the row left / starts the next line in absolute line coordinates, appends a line exactly on the last row, and re-establishes Plain; by induction the "
+            "layout at width w is the deferred-wrap layout for every height and scroll amount.",
+            "The String layer (Buffer::text, TextUnwrapper: join + trim_end) and the equality of text() at two widths as strings are outside: str::trim_end / String::extend "
+            "on symbolic characters run CBMC out of memory. Widths 1-3, heights 1-3.", "5/C09"),
+    "C10": ("Kernels only: height-only Terminal::resize from an arbitrary state (no line altered, only rows below the cursor dropped, cursor stays on its line, InvT), the "
+            "height re-synchronisation on return from the alternate screen, and the reflow kernels Line::contract (any line of <= 5 cells), Line::extend (all shapes of "
+            "1-2 + 1-3 cells), Line::trim and logical/relative cursor position. The width-changing composition (Reflow::next, Buffer::resize with new_cols != cols) is undecided.",
             "Buffer::resize with a width change is out of CBMC's reach here (DESIGN.md section 0); heights 1..4, cursor rows and scrollback sizes enumerated as instances.", "5/C10"),
     "C12": ("feed_str = fold of the decided step followed by changes(); gc(): both are shown invisible - view, cursor, modes, saved contexts unchanged; with unlimited "
             "scrollback lines() unchanged - from an arbitrary state, iterator drained or dropped.", NOTE + " A literal comparison of 2^(n-1) chunkings of a string is outside.", "5/C12"),
